@@ -272,6 +272,13 @@ func (m *MonWAL) DeleteGroup() error {
 	return err
 }
 
+// Kill makes the store refuse every further write (its process is dead).
+func (m *MonWAL) Kill() {
+	m.mu.Lock()
+	m.Crashed = true
+	m.mu.Unlock()
+}
+
 // Disarm cancels a crash plan that has not fired yet.
 func (m *MonWAL) Disarm() {
 	m.mu.Lock()
